@@ -46,7 +46,7 @@ class Run:
         if free:
             self.nontrivial += 1
 
-    def obligation(self, ctx, label, viol, concretize, known=None, extra=None):
+    def obligation(self, ctx, label, viol, concretize, known=None, extra=None, soft=False):
         """viol: z3 Bool (or SymBool / python bool) that is satisfiable iff the property fails on
         this path.  concretize(model) -> JSON-able inputs.  known: {finding key: z3 Bool} classes
         of *open* known findings on this instantiation; they are excluded from the main query
@@ -65,7 +65,7 @@ class Run:
         r, m = ctx.query(main)
         self.q[r] += 1
         if r == "sat" and len(self.cex) < MAX_CEX_PER_INST:
-            self.cex.append({"ob": label, "inputs": concretize(m), "known_key": None, "extra": extra})
+            self.cex.append({"ob": label, "inputs": concretize(m), "known_key": None, "extra": extra, "soft": soft})
         for k, pred in known.items():
             pz = pred if not isinstance(pred, bool) else z3.BoolVal(pred)
             r2, m2 = ctx.query(z3.And(viol, pz))
@@ -216,7 +216,7 @@ def run_check(prop, tier, seed, jobs=None):
             samples.extend(r["samples"][:1])
         for c in r["cex"]:
             cex_items.append({"spec": r["spec"], "inputs": c["inputs"], "ob": c["ob"], "known_key": c["known_key"],
-                              "extra": c.get("extra")})
+                              "extra": c.get("extra"), "soft": c.get("soft", False)})
         for v in r["validations"]:
             val_items.append({"spec": r["spec"], "inputs": v["inputs"], "ob": None, "predicted": v["predicted"]})
 
@@ -242,6 +242,7 @@ def run_check(prop, tier, seed, jobs=None):
     rep_dir = os.path.join(VERIF, "evidence", "replays", prop)
     violations, known_hits, mismatches = [], collections.Counter(), 0
     suppressed = 0
+    soft_unconfirmed = 0
     replays_run = 0
     if cex_items:
         os.makedirs(rep_dir, exist_ok=True)
@@ -254,6 +255,10 @@ def run_check(prop, tier, seed, jobs=None):
             replays_run += 1
             if "error" in o:
                 harness_errors.append((it["spec"]["name"], "replay failed to run: " + o["error"]))
+                continue
+            if not o["violated"] and it.get("soft"):
+                # a *candidate* (e.g. a hash collision): only a violation if the real code then misbehaves; it did not
+                soft_unconfirmed += 1
                 continue
             if not o["violated"]:
                 mismatches += 1
@@ -343,7 +348,7 @@ def run_check(prop, tier, seed, jobs=None):
             "nonlinear_products": int(tot["nonlinear_products"]),
             "regions_required": need, "regions_reached": sorted(regions),
             "oracle_mutants": {"run": mutants_expected, "refuted": mutants_refuted},
-            "replays_run": replays_run, "replay_mismatches": mismatches,
+            "replays_run": replays_run, "replay_mismatches": mismatches, "candidates_not_confirmed_by_replay": soft_unconfirmed,
             "translator_validations": validated,
             "known_finding_hits": dict(known_hits),
             "inconclusive": [list(x) for x in inconclusive[:20]],
